@@ -1006,6 +1006,154 @@ fn mutate_text(r: &mut Rng, text: &str) -> String {
 }
 
 // ------------------------------------------------------------------------------------------------
+// model lines, declaration / fragment level: `(sty print-frag …)`, `(sty parse-frag …)`
+// ------------------------------------------------------------------------------------------------
+
+/// `(frag (ns …)…)` of a JSON-form fragment; `sorted`: entries and namespaces sorted by their encoding (the canonical form of a
+/// parse result), otherwise in `BTreeMap` iteration order (what the printer walks).  `None`: outside the model's data
+/// (additional attributes, an entity shape that is not a record).
+fn frag_sx(f: &Fragment<RawName>, sorted: bool) -> Option<String> {
+    fn join(mut v: Vec<String>, sorted: bool) -> String {
+        if sorted {
+            v.sort();
+        }
+        v.iter().map(|x| format!(" {x}")).collect()
+    }
+    let names = |v: &Vec<RawName>| v.iter().map(|m| format!(" {}", qs(&m.to_string()))).collect::<String>();
+    let mut nss = Vec::new();
+    for (name, ns) in f.0.iter() {
+        let mut commons = Vec::new();
+        for (n, c) in &ns.common_types {
+            commons.push(format!("({} {})", qs(&n.to_string()), ty_sx(&strip_annotations(&c.ty))?));
+        }
+        let mut ents = Vec::new();
+        for (n, e) in &ns.entity_types {
+            let body = match &e.kind {
+                json_schema::EntityTypeKind::Enum { choices } => {
+                    format!("(enum{})", choices.iter().map(|c| { let s: &str = c.as_ref(); format!(" {}", qs(s)) }).collect::<String>())
+                }
+                json_schema::EntityTypeKind::Standard(st) => {
+                    let shape = strip_annotations(&st.shape.0);
+                    if !matches!(shape, json_schema::Type::Type { ty: json_schema::TypeVariant::Record(_), .. }) {
+                        return None;
+                    }
+                    let tags = match &st.tags {
+                        None => "(notags)".to_string(),
+                        Some(t) => format!("(tags {})", ty_sx(&strip_annotations(t))?),
+                    };
+                    format!("(std (in{}) {} {tags})", names(&st.member_of_types), ty_sx(&shape)?)
+                }
+            };
+            ents.push(format!("({} {body})", qs(&n.to_string())));
+        }
+        let mut acts = Vec::new();
+        for (n, a) in &ns.actions {
+            let m = match &a.member_of {
+                None => "(noin)".to_string(),
+                Some(rs) => format!("(in{})", rs.iter().map(|r| format!(" (ref {} {})", match &r.ty { Some(t) => qs(&t.to_string()), None => "none".to_string() }, qs(&r.id))).collect::<String>()),
+            };
+            let ap = match &a.applies_to {
+                None => "(noapplies)".to_string(),
+                Some(ap) => format!("(applies (p{}) (r{}) {})", names(&ap.principal_types), names(&ap.resource_types), ty_sx(&strip_annotations(&ap.context.0))?),
+            };
+            acts.push(format!("({} (act {m} {ap}))", qs(n)));
+        }
+        let nm = match name { None => String::new(), Some(n) => n.to_string() };
+        nss.push(format!("(ns {} (commons{}) (entities{}) (actions{}))", qs(&nm), join(commons, sorted), join(ents, sorted), join(acts, sorted)));
+    }
+    Some(format!("(frag{})", join(nss, sorted)))
+}
+
+/// `(sty print-frag …)`: the real `to_cedarschema` on a whole fragment, tokenised (annotations dropped), against the model's printer
+fn emit_frag_print(out: &mut Out, case: &str, f: &Fragment<RawName>) -> Option<String> {
+    let Ok(Ok(text)) = guard(|| f.to_cedarschema()) else { return None };
+    let sx = frag_sx(f, false)?;
+    let Some(toks) = lex(&text) else {
+        out.propfail("printer output is not lexable", case, &text);
+        return None;
+    };
+    let toks = drop_annotations(toks);
+    out.nontrivial(&format!("print-frag|{sx}"));
+    out.count("model:print-frag");
+    out.add("model:print-frag:tokens", toks.len() as u64);
+    out.line(format!("(sty print-frag {sx})"), format!("(toks {})", toks.join(" ")).replace("(toks )", "(toks)"), format!("{case} print-frag {text:?}"));
+    Some(text)
+}
+
+/// `(sty parse-frag …)`: the real schema parser + to_json_schema.rs on a whole text against the model's parser
+fn emit_frag_parse(out: &mut Out, case: &str, text: &str) {
+    let Some(toks) = lex(text) else { return };
+    let annotated = toks.iter().any(|t| t == "at");
+    let toks = drop_annotations(toks);
+    if toks.iter().any(|t| t == "at" || t == "lp" || t == "rp") {
+        return;
+    }
+    let imp = match guard(|| Fragment::<RawName>::from_cedarschema_str(text, ext()).map(|x| x.0)) {
+        Ok(Ok(f)) => match frag_sx(&f, true) {
+            Some(s) => format!("(ok {s})"),
+            None => return,
+        },
+        Ok(Err(e)) => {
+            // repeated declarations / namespaces are refused after parsing (`build_namespace_bindings`: not modelled);
+            // annotations are erased for the model: a rejection of an annotated text may be about them
+            let msg = format!("{e:?}");
+            if msg.contains("Duplicate") || msg.contains("duplicate") {
+                out.count("model:parse-frag:skipped-duplicate");
+                return;
+            }
+            if annotated {
+                out.count("model:parse-frag:skipped-annotated-rejected");
+                return;
+            }
+            "(err)".to_string()
+        }
+        Err(_) => {
+            out.propfail("schema parser panicked", case, text);
+            return;
+        }
+    };
+    out.nontrivial(&format!("parse-frag|{}", toks.join(" ")));
+    out.count(if imp == "(err)" { "model:parse-frag:err" } else { "model:parse-frag:ok" });
+    out.line(format!("(sty parse-frag (toks {}))", toks.join(" ")).replace("(toks )", "(toks)"), imp, format!("{case} parse-frag {text:?}"));
+}
+
+/// single-token mutations at the declaration level
+fn mutate_decl_text(r: &mut Rng, text: &str) -> String {
+    let reps: &[(&str, &str)] = &[
+        (";", ""), (";", ";;"), ("appliesTo", "appliesTo appliesTo"), ("principal", "resource"), ("resource", "principal"), ("[", ""), ("]", ""),
+        (",", ""), ("enum", "in"), ("action", "entity"), ("entity", "action"), ("namespace", "type"), ("=", ""), ("context", "principal"),
+        (" in ", " in in "), ("{", ""), ("}", ""), ("[", "[,"), ("]", ",]"), ("type ", "type Set"), ("type ", "type Long"), ("::", ""),
+        ("context:", "context: Set<Long>,"), ("}", ",}"), ("namespace ", "namespace __cedar::"), ("\"", ""), ("appliesTo {", "appliesTo {}"),
+        (";", " attributes {};"), ("principal:", "principal: [],"), ("enum [", "enum []"),
+    ];
+    for _ in 0..8 {
+        let (from, to) = *r.pick(reps);
+        let idx: Vec<usize> = text.match_indices(from).map(|x| x.0).collect();
+        if !idx.is_empty() {
+            let i = *r.pick(&idx);
+            return format!("{}{}{}", &text[..i], to, &text[i + from.len()..]);
+        }
+    }
+    format!("{text} {text}")
+}
+
+/// fragment-level model lines for one fragment (JSON side: printed and re-parsed; Cedar side: the given text and a mutation of it)
+fn emit_frag_lines(out: &mut Out, r: &mut Rng, case: &str, f: &Fragment<RawName>, text: Option<&str>) {
+    if let Some(printed) = emit_frag_print(out, case, f) {
+        emit_frag_parse(out, case, &printed);
+        if r.chance(30) {
+            emit_frag_parse(out, case, &mutate_decl_text(r, &printed));
+        }
+    }
+    if let Some(t) = text {
+        emit_frag_parse(out, case, t);
+        if r.chance(50) {
+            emit_frag_parse(out, case, &mutate_decl_text(r, t));
+        }
+    }
+}
+
+// ------------------------------------------------------------------------------------------------
 // model lines: name resolution (observed end to end through a synthetic schema)
 // ------------------------------------------------------------------------------------------------
 
@@ -1285,6 +1433,7 @@ pub fn run(args: &Args, out: &mut Out) {
             }
             if let Ok(Ok(f)) = guard(|| Fragment::<RawName>::from_json_value(w.json.clone())) {
                 emit_model_lines(out, &mut r, &cname, &f, &[]);
+                emit_frag_lines(out, &mut r, &cname, &f, None);
             }
         } else {
             let spec = gt::gen_tspec(&mut r);
@@ -1297,10 +1446,12 @@ pub fn run(args: &Args, out: &mut Out) {
             if let Ok(Ok(f)) = guard(|| Fragment::<RawName>::from_json_value(j.clone())) {
                 check_annotations(out, &cname, &f);
                 emit_model_lines(out, &mut r, &cname, &f, &[]);
+                emit_frag_lines(out, &mut r, &cname, &f, None);
             }
             if let Ok(Ok((f, _))) = guard(|| Fragment::<RawName>::from_cedarschema_str(&t.text, ext())) {
                 check_annotations(out, &cname, &f);
                 emit_model_lines(out, &mut r, &cname, &f, &t.type_exprs);
+                emit_frag_lines(out, &mut r, &cname, &f, Some(&t.text));
             }
         }
     }
@@ -1336,6 +1487,7 @@ fn probes(out: &mut Out, r: &mut Rng) {
         if let Ok(Ok((f, _))) = guard(|| Fragment::<RawName>::from_cedarschema_str(t, ext())) {
             check_annotations(out, &cname, &f);
             emit_model_lines(out, r, &cname, &f, &[]);
+            emit_frag_lines(out, r, &cname, &f, Some(t));
         }
     }
     let jsons: Vec<J> = vec![
@@ -1364,6 +1516,7 @@ fn probes(out: &mut Out, r: &mut Rng) {
         check_json_input(out, r, &cname, "probe", j, None);
         if let Ok(Ok(f)) = guard(|| Fragment::<RawName>::from_json_value(j.clone())) {
             emit_model_lines(out, r, &cname, &f, &[]);
+            emit_frag_lines(out, r, &cname, &f, None);
         }
     }
     // type-expression texts for the parser
